@@ -130,6 +130,11 @@ func (_ *StorageSmartContract) shutdownValidator(
 					"can't get the blobber "+tx.ClientID+": "+err.Error())
 			}
 
+			if validator.ProviderType != spenum.Validator {
+				return nil, nil, common.NewError("shutdown_validator_failed",
+					"provider "+req.ID+" is not a validator")
+			}
+
 			validatorPartitions, err := getValidatorsList(balances)
 			if err != nil {
 				return nil, nil, common.NewError("shutdown_validator_failed",
